@@ -68,6 +68,8 @@ def generate(solver_tree, util, trees=None):
                'vmap2 (fun x_ u_ => if lt u_ x_ then u_ else x_) l_x0 l_xu.\n')
     rad, idx = gen_radius(trees, util)
     out.append(rad)
+    if 'trust_region' in trees:
+        out.append(gen_kernels(trees, util))
     out.append('End Gen.')
     out.append(idx)
     return '\n'.join(out)
@@ -138,3 +140,49 @@ def gen_radius(trees, util):
     idx = 'Definition radius_site_index : list (string * string * string * Z * list string) := [\n' + ';\n'.join(
         '  ("%s"%%string, "%s"%%string, "%s"%%string, %d, [%s])' % (f, q_, n_, o, '; '.join('"%s"%%string' % x for x in names)) for (f, q_, n_, o, c, names) in index) + '].\n'
     return '\n'.join(out) + '\n', idx
+
+
+# ------------------------------------------------------------------------------------------------ kernels (C12, C14)
+def gen_kernels(trees, util):
+    out = []
+    # d_within_bounds: exactly these four statements
+    tr_tree = trees['trust_region']
+    f = [n for n in tr_tree.body if isinstance(n, ast.FunctionDef) and n.name == 'd_within_bounds']
+    if len(f) != 1:
+        raise Untranslatable('UNTRANSLATABLE: d_within_bounds not found exactly once')
+    f = f[0]
+    body = [ast.unparse(s) for s in f.body if not (isinstance(s, ast.Expr) and isinstance(s.value, ast.Constant))]
+    expect = ['xnew = np.maximum(np.minimum(xopt + d, su), sl)', 'xnew[xbdi == -1] = sl[xbdi == -1]', 'xnew[xbdi == 1] = su[xbdi == 1]', 'd = xnew - xopt', 'return d']
+    if [a.arg for a in f.args.args] != ['d', 'xopt', 'sl', 'su', 'xbdi'] or body != expect:
+        raise Untranslatable('UNTRANSLATABLE line %d: d_within_bounds is not the four-statement clip (got %r)' % (f.lineno, body))
+    t = expr_tr(util, {'d': 'vec', 'xopt': 'vec', 'sl': 'vec', 'su': 'vec'})
+    clip, _ = t.e(f.body[-5 + 0].value if False else [s for s in f.body if isinstance(s, ast.Assign)][0].value, want='vec')
+    out.append('(* xnew of d_within_bounds: clip, then components flagged -1 / +1 in xbdi are set to the bound itself *)\n'
+               'Fixpoint mask_bounds (xnew sl su : vec) (xbdi : list Z) : vec :=\n'
+               '  match xnew, sl, su, xbdi with\n'
+               '  | x :: xn, l :: sl\', u :: su\', b :: xb => (if Z.eqb b (-1) then l else if Z.eqb b 1 then u else x) :: mask_bounds xn sl\' su\' xb\n'
+               '  | _, _, _, _ => []\n  end.\n'
+               'Definition py_tr_d_within_bounds_xnew (l_d l_xopt l_sl l_su : vec) (l_xbdi : list Z) : vec :=\n'
+               'mask_bounds %s l_sl l_su l_xbdi.\n'
+               'Definition py_tr_d_within_bounds (l_d l_xopt l_sl l_su : vec) (l_xbdi : list Z) : vec :=\n'
+               'vmap2 sub (py_tr_d_within_bounds_xnew l_d l_xopt l_sl l_su l_xbdi) l_xopt.\n' % t.finish(clip))
+    # generator tails: results[:, i] = np.maximum(np.minimum(results[:, i], upper), lower) in a loop over range(num_pts)
+    ut = trees['util']
+    for gname in ('random_orthog_directions_within_bounds', 'random_directions_within_bounds'):
+        g = [n for n in ut.body if isinstance(n, ast.FunctionDef) and n.name == gname]
+        if len(g) != 1:
+            raise Untranslatable('UNTRANSLATABLE: %s not found' % gname)
+        g = g[0]
+        loops = [s for s in g.body if isinstance(s, ast.For)]
+        last = loops[-1] if loops else None
+        ok = last is not None and ast.unparse(last.target) == 'i' and ast.unparse(last.iter) == 'range(num_pts)' and len(last.body) == 1 and \
+            isinstance(last.body[0], ast.Assign) and ast.unparse(last.body[0].targets[0]) == 'results[:, i]' and \
+            isinstance(g.body[-1], ast.Return) and g.body.index(last) == len(g.body) - 2
+        if not ok:
+            raise Untranslatable('UNTRANSLATABLE line %d: %s does not end with the clipping loop over range(num_pts) followed by return' % (g.lineno, gname))
+        rhs = last.body[0].value
+        e2 = ast.parse(ast.unparse(rhs).replace('results[:, i]', 'col'), mode='eval').body
+        t = expr_tr(util, {'col': 'vec', 'lower': 'vec', 'upper': 'vec'})
+        txt, _ = t.e(e2, want='vec')
+        out.append('Definition py_util_%s_tail (l_col l_lower l_upper : vec) : vec :=\n%s.\n' % (gname, t.finish(txt)))
+    return '\n'.join(out) + '\n'
